@@ -11,6 +11,11 @@ and mutates again.  The results are recomputed from the snapshots
     -> group -> aggregate -> expand -> add, concatenation; compared per event and at the end, as a map
     category-tuple -> exact value (row order ignored), and
   * by the oracle below (plain Python, independent of the model): the property itself.
+
+Lesson 16 (faults and re-entrancy): `faults` makes user callables raise on purpose while one chosen event is gathered,
+`catch` makes the harness behave like an interactive caller (catch what `step()` raises, read the results, call `step()`
+again, finish the run), `twin` keeps a second simulation alive in the same process.  Every EMISSION of a phase is an event
+of its own: a step that failed in collect_metrics and is run again emits all four phases again for the same clock time.
 """
 from __future__ import annotations
 
@@ -57,7 +62,13 @@ def pz_of(row):
     return (row["sid"] % 2) * SCALE
 
 
-PIPES = {"pv": pv_of, "pw": pw_of, "pz": pz_of}
+def pf_of(row):
+    """value pipeline `pf`: the constant 1.0.  It exists to be used in filters (`pf < 2.0` holds for everybody) and to
+    deliver, ON PURPOSE and at one chosen event, a value of another type, so that the evaluation of the filter raises"""
+    return SCALE
+
+
+PIPES = {"pv": pv_of, "pw": pw_of, "pz": pz_of, "pf": pf_of}
 
 KINDS = {
     # categorical column, default mapper (mapper=None)
@@ -138,10 +149,11 @@ def vobs(case):
 def atom_holds(atom, r):
     col, op, c = atom
     v = {"tracked": r["tracked"], "y": r["y"], "x": Fraction(r["x"], SCALE), "g": r["g"], "h": r["h"], "c": r["c"],
-         "pv": Fraction(pv_of(r), SCALE), "pw": Fraction(pw_of(r), SCALE), "pz": Fraction(pz_of(r), SCALE)}[col]
+         "pv": Fraction(pv_of(r), SCALE), "pw": Fraction(pw_of(r), SCALE), "pz": Fraction(pz_of(r), SCALE),
+         "pf": Fraction(pf_of(r), SCALE)}[col]
     if op == "in":
         return v in c
-    if col in ("x", "pv", "pw", "pz"):
+    if col in ("x", "pv", "pw", "pz", "pf"):
         c = Fraction(c).limit_denominator(64)
     return {"==": v == c, "!=": v != c, "<": v < c, "<=": v <= c, ">": v > c, ">=": v >= c}[op]
 
@@ -179,23 +191,182 @@ def filter_columns(flt):
     return sorted(cols - set(PIPES)), sorted(cols & set(PIPES))
 
 
+# ---------------------------------------------------------------------------------------- faults (lesson 16)
+# A fault = a user callable of the results system that raises ON PURPOSE while one chosen event is gathered:
+#   {"kind": ..., "target": <pipeline / stratification / observation name>, "step": s, "phase": k, "times": n, "exc": ...}
+# It is live during the first `times` EMISSIONS of phase k of step s (a step that failed in collect_metrics can be run
+# again: the same phases are emitted again for the same clock time).  Kinds, by the place in
+# `ResultsManager.gather_results` where the exception comes from:
+#   pipe            a required value pipeline raises                     (`_prepare_population`, before anything)
+#   (mappers        fail through the DATA, see `unknown`: a value appears in a source column for which the mapper returns an
+#                   unknown category - or, with `raises`, raises itself - and, with `transient`, is gone again when the step
+#                   is run again; mappers stay pure functions of their input)    (`Stratification.stratify`, before any observation)
+#   filter          the pipeline `pf` delivers a str among its numbers: `population.query("pf < 2.0")` raises a TypeError
+#                   when the first observation group with such a filter is reached (`_filter_population`)
+#   to_observe      an observation's `to_observe` raises                 (`BaseObservation.observe`; only when the group's
+#                                                                         filtered population is not empty)
+#   agg / gatherer / updater   the aggregator / results_gatherer / results_updater of an observation raises
+#                                                                        (only when also `to_observe` said yes)
+# Observations are walked group by group – `ResultsContext.observations[phase]` is a dict keyed by (pop_filter,
+# stratifications), groups in order of first registration, registration order inside a group – and the manager applies
+# every yielded result at once, so what was gathered BEFORE the failing callable stays recorded.
+
+STRAT_PIPES = {"pvb": ["pv"], "pwb": ["pw"], "pvs": ["pv"], "pq": ["pw", "pv"], "zw": ["pz", "pw"], "hp": ["pv"]}
+NO_USER_MAPPER = ("g", "cdef", "xb", "pvb", "pwb")
+BAD_VALUE = {"g": "zz", "h": "w", "x": 10.0}              # what `unknown` writes into a column
+GOOD_VALUE = {"g": "a", "h": "u", "x": 1.0}               # ... and what a transient one is replaced by afterwards
+RAISING_KINDS = {"g": ("gy", "gcat"), "h": ("h2", "hp", "hrev"), "x": ("xfr",)}   # user mappers reading that column
+
+
+def mapper_raises_at(case, ev):
+    """`unknown.raises`: the user mappers that read the column raise (KeyError) when they meet the bad value; true when
+    the results manager hands such a mapper a simulant of this event that carries it"""
+    u = case.get("unknown")
+    if not u or not u.get("raises"):
+        return False
+    if not any(s["kind"] in RAISING_KINDS[u["col"]] for s in registered_strats(case)):
+        return False
+    bad = BAD_VALUE[u["col"]] * SCALE if u["col"] == "x" else BAD_VALUE[u["col"]]
+    return any(r["in_event"] and r[u["col"]] == bad for r in ev["rows"])
+
+
+def real_obs_order(case):
+    """indices into case["obs"] in the order the REAL registrations happen: the `Direct` component first (in case
+    order), then the Observer components (one per `via: observer` observation, in the order of case["obs"])"""
+    direct = [i for k, i in case["order"] if k == "o" and case["obs"][i].get("via") != "observer"]
+    return direct + [i for i, o in enumerate(case["obs"]) if o.get("via") == "observer"]
+
+
+def filter_string(o):
+    """the bytes of the observation's pop_filter (None = the default of the interface) – one half of its group key"""
+    return "tracked==True" if o["filter"] is None else query_string(o["filter"], o.get("ws", 0))
+
+
+def required_pipes(case):
+    """the value pipelines the results manager evaluates at every event: those of every registered stratification and
+    of every observation (filter, aggregator sources, included columns)"""
+    req = set()
+    for s in registered_strats(case):
+        req |= set(STRAT_PIPES.get(s["kind"], []))
+    for o in case["obs"]:
+        req |= set(filter_columns(o["filter"])[1])
+        if o["type"] == "cat":
+            req |= set(o["cols"]) & set(PIPES)
+        else:
+            req |= {"sumpv": {"pv"}, "sumpw": {"pw"}}.get(o["agg"], set())
+    return req
+
+
+def injectable(case, f):
+    """can the harness install this fault in this program (does the callable exist)?"""
+    k, t = f["kind"], f.get("target")
+    if k == "pipe":
+        return t in PIPES
+    if k == "filter":
+        return True
+    os_ = [o for o in case["obs"] if o["name"] == t]
+    if len(os_) != 1:
+        return False
+    o = os_[0]
+    if k == "to_observe":
+        return True
+    if k == "agg":
+        return o["type"] == "add"
+    if k == "gatherer":
+        return o["type"] == "cat" and o.get("method") == "unstratified" and not o.get("nocb")
+    if k == "updater":
+        return o.get("method") in ("stratified", "unstratified") and not o.get("nocb")
+    return False
+
+
+def case_faults(case):
+    return [f for f in (case.get("faults") or []) if injectable(case, f)]
+
+
+def emission_no(events, n):
+    """how many times phase events[n].phase of step events[n].step had been emitted before events[n]"""
+    return sum(1 for e in events[:n] if (e["step"], e["phase"]) == (events[n]["step"], events[n]["phase"]))
+
+
+def live_faults(case, events, n):
+    ev = events[n]
+    em = emission_no(events, n)
+    return [f for f in case_faults(case) if (f["step"], f["phase"]) == (ev["step"], ev["phase"]) and em < f.get("times", 1)]
+
+
+def has_pf_atom(o):
+    return any(a[0] == "pf" for a in (o["filter"] or []))
+
+
+def all_passing_excluded(case, o, rows):
+    """Every simulant of the event that passes the observation's filter sits in an excluded category.  Whether the group's
+    population then counts as empty BEFORE `to_observe` / the updater are asked (explicit `dropna` ahead of the emptiness
+    test) or only inside the groupby is an implementation detail (`harmless-no-explicit-dropna`): no observation-level
+    fault is injected in that situation."""
+    if o["type"] != "add":
+        return False
+    nm = obs_strat_names(case, o)
+    inev = [r for r in rows if r["in_event"] and passes(o["filter"], r)]
+    if not inev or not nm:
+        return False
+    kept = {n: [c for c in strat_cats(strat_by_name(case, n)) if c not in exclusions(case, strat_by_name(case, n))] for n in nm}
+    return not any(all(raw_category(strat_by_name(case, n), r) in kept[n] for n in nm) for r in inev)
+
+
+def obs_fault_code(case, o, live, rows):
+    """which callable called for observation `o` raises at this event: f = filter, t = to_observe, g = gatherer /
+    aggregator / updater, - = none (the first that is reached wins: filter, then to_observe, then the rest)"""
+    if has_pf_atom(o) and any(f["kind"] == "filter" for f in live):
+        return "f"
+    if all_passing_excluded(case, o, rows):
+        return "-"
+    name = o.get("src", o["name"])
+    if any(f["kind"] == "to_observe" and f["target"] == name for f in live):
+        return "t"
+    if any(f["kind"] in ("agg", "gatherer", "updater") and f["target"] == name for f in live):
+        return "g"
+    return "-"
+
+
 # ---------------------------------------------------------------------------------------- implementation
 
 def _run(case, _is_prior=False):
+    """priors (earlier simulations of the process, run to their end) -> the case itself, step attempts interleaved
+    with those of its `twin` (a second, independent simulation alive in the same process at the same clock times)"""
     impl.load()
-    import pandas as pd
-    from vivarium import Component
-    from vivarium.framework.engine import SimulationContext
-    from vivarium.framework.results.observer import Observer
-
-    # process history: earlier simulations in the same process, with their OWN configuration (default stratifications,
-    # observations that rely on the interface's default arguments); nothing of them may leak into this one
     if not _is_prior:
         for prior in case.get("prior") or []:
             try:
                 _run(prior, _is_prior=True)
             except Exception:  # noqa: BLE001
                 pass
+    twin = case.get("twin") if not _is_prior else None
+    gens = [_session(case, False)] + ([_session(twin, True)] if twin else [])
+    if twin and case.get("twin_first"):
+        gens.reverse()
+    results = {}
+    alive = list(gens)
+    while alive:
+        for g in list(alive):
+            try:
+                next(g)
+            except StopIteration as stop:
+                results[id(g)] = stop.value
+                alive.remove(g)
+    main, tw = (gens[1], gens[0]) if (twin and case.get("twin_first")) else (gens[0], gens[1] if twin else None)
+    out = results[id(main)]
+    if tw is not None:
+        out["twin"] = results[id(tw)]
+    return out
+
+
+def _session(case, _is_twin=False):
+    """one simulation as a generator: yields after setup and after every step attempt, returns the observations"""
+    impl.load()
+    import pandas as pd
+    from vivarium import Component
+    from vivarium.framework.engine import SimulationContext
+    from vivarium.framework.results.observer import Observer
 
     out = {"outcome": "ok", "error": None, "events": [], "final": None, "after_finalize": None}
     traj = random.Random(case["tseed"])
@@ -235,6 +406,36 @@ def _run(case, _is_prior=False):
                 shared[key] = Callable_(fn) if objs else fn
             return shared[key]
         return Callable_(fn) if objs else fn
+
+    # ---- faults: user callables that raise on purpose while one chosen event is gathered (see `live_faults`)
+    FAULTS = case_faults(case)
+    cur = {"step": None, "phase": None, "em": 0}
+
+    class InjectedFault(RuntimeError):
+        pass
+
+    def live(kinds, target=None):
+        for f in FAULTS:
+            if (f["kind"] in kinds and (target is None or f.get("target") == target)
+                    and (f["step"], f["phase"]) == (cur["step"], cur["phase"]) and cur["em"] < f.get("times", 1)):
+                return f
+        return None
+
+    def boom(f):
+        raise {"key": KeyError, "value": ValueError, "zero": ZeroDivisionError, "type": TypeError}.get(f.get("exc"), InjectedFault)(
+            f"injected fault: {f['kind']} {f.get('target')}")
+
+    def targeted(kinds, target):
+        return any(f["kind"] in kinds and f.get("target") == target for f in FAULTS)
+
+    def faulty(fn, kinds, target, unless=None):
+        """`fn`, raising instead while a fault of one of `kinds` aimed at `target` is live (and `unless()` is false)"""
+        def wrapped(*a, **k):
+            f = live(kinds, target)
+            if f and not (unless is not None and unless()):
+                boom(f)
+            return fn(*a, **k)
+        return wrapped
 
     def vary(fn, kind):
         """`hetero`: the same callable returns its (equal) result in another representation from call to call"""
@@ -292,7 +493,7 @@ def _run(case, _is_prior=False):
 
         def setup(self, b):
             self.view = b.population.get_view(["sid", "tracked"])
-            b.value.register_value_producer("pz", source=lambda idx: (self.view.get(idx)["sid"] % 2).astype(float),
+            b.value.register_value_producer("pz", source=faulty(lambda idx: (self.view.get(idx)["sid"] % 2).astype(float), ("pipe",), "pz"),
                                             requires_columns=["sid"])
             if slow:
                 b.time.register_step_size_modifier(self.step_size)
@@ -314,13 +515,15 @@ def _run(case, _is_prior=False):
             self.creator = b.population.get_simulant_creator()
             self.tv = b.population.get_view(["tracked"])
             self.pvview = b.population.get_view(["y", "sid", "tracked"])
-            b.value.register_value_producer("pv", source=vary(self._pv, "pipe"), requires_columns=["y", "sid"])
-            b.value.register_value_producer("pw", source=self._pw, requires_columns=["y", "sid"])
+            b.value.register_value_producer("pv", source=faulty(vary(self._pv, "pipe"), ("pipe",), "pv"), requires_columns=["y", "sid"])
+            b.value.register_value_producer("pw", source=faulty(self._pw, ("pipe",), "pw"), requires_columns=["y", "sid"])
             b.value.register_value_modifier("pw", modifier=lambda idx, v: v + 1.0)
+            b.value.register_value_producer("pf", source=faulty(self._pf, ("pipe",), "pf"), requires_columns=["sid"])
             for k, ph in enumerate(PH):
                 b.event.register_listener(ph, (lambda e, k=k: self.pre(k, e)), priority=0)
                 b.event.register_listener(ph, (lambda e, k=k: self.post(k, e)), priority=9)
             self.step = 0
+            self.u_sid, self.u_restored = None, False
 
         def _pv(self, idx):
             p = self.pvview.get(idx)
@@ -330,12 +533,19 @@ def _run(case, _is_prior=False):
             p = self.pvview.get(idx)
             return ((p["y"] + 2 * p["sid"]) % 3).astype(float).iloc[::-1]      # complete, id-indexed, other row order
 
+        def _pf(self, idx):
+            s = pd.Series(1.0, index=idx)
+            if len(idx) and live(("filter",)):
+                s = s.astype(object)
+                s.iloc[0] = "oops"            # a value of another type: `population.query("pf < 2.0")` raises
+            return s
+
         def on_initialize_simulants(self, d):
             self.population_view.update(frame(new_values(len(d.index), d.index), d.index))
 
         def mutate(self, k, when):
             sim = holder["sim"]
-            pop = sim.get_population()
+            pop = sim.get_population(untracked=True)
             if self.step in (T.get("freeze") or []):
                 return                          # nothing changes: the next event sees exactly the same population again
             nb = traj.randint(0, T["max_births"]) if traj.random() < T["p_birth"] else 0
@@ -352,9 +562,14 @@ def _run(case, _is_prior=False):
                 elif not tracked[sid] and T.get("p_retrack") and traj.random() < T["p_retrack"]:
                     retrack.append(sid)         # untracked simulants becoming tracked again
             u = case.get("unknown")
-            if u and when == "pre" and u["step"] == self.step and u["phase"] == k and len(pop):
-                sid = list(pop.index)[u["who"] % len(pop)]
-                changes[u["col"]][sid] = {"g": "zz", "h": "w", "x": 10.0}[u["col"]]
+            if u and when == "pre" and len(pop):
+                if u["step"] == self.step and u["phase"] == k and not (u.get("transient") and self.u_sid is not None):
+                    self.u_sid = list(pop.index)[u["who"] % len(pop)]
+                    changes[u["col"]][self.u_sid] = BAD_VALUE[u["col"]]
+                elif u.get("transient") and self.u_sid is not None and not self.u_restored:
+                    # the cause goes away: at the next event (the first one of the step that is run again) the value is valid
+                    self.u_restored = True
+                    changes[u["col"]][self.u_sid] = GOOD_VALUE[u["col"]]
             for col, ch in changes.items():
                 if ch:
                     dt = {"g": "str", "h": "str", "x": "float64", "y": "int64", "c": cdtype}[col]
@@ -369,10 +584,12 @@ def _run(case, _is_prior=False):
                 self.creator(0)                      # a birth event of nobody
 
         def pre(self, k, e):
-            n_before = len(holder["sim"].get_population())
+            cur.update(step=self.step, phase=k,
+                       em=sum(1 for ev in out["events"] if (ev["step"], ev["phase"]) == (self.step, k)))
+            n_before = len(holder["sim"].get_population(untracked=True))
             self.mutate(k, "pre")
             sim = holder["sim"]
-            pop = sim.get_population()
+            pop = sim.get_population(untracked=True)
             inev = set(int(i) for i in e.index)
             rows = []
             for sid, r in zip(pop.index, pop[["sid", "tracked", "g", "h", "x", "y", "c"]].to_dict("records")):
@@ -383,6 +600,7 @@ def _run(case, _is_prior=False):
                                   "n_before": n_before, "rows": rows, "after": None})
 
         def post(self, k, e):
+            cur.update(step=None, phase=None)
             sim = holder["sim"]
             res = sim.get_results()
             out["events"][-1]["after"] = {o["name"]: canon_result(res.get(o["name"]), o, pd, tick)
@@ -414,7 +632,19 @@ def _run(case, _is_prior=False):
         reg, binreg = b.results.register_stratification, b.results.register_binned_stratification
 
         def cbm(fn):
-            return cb(vary(fn, "row" if kind in ("h2", "zw", "hp") else "vec"), ("map", kind))
+            per_row = kind in ("h2", "zw", "hp")
+            fn = vary(fn, "row" if per_row else "vec")
+            u = case.get("unknown") or {}
+            if not (u.get("raises") and kind in RAISING_KINDS[u["col"]]):
+                return cb(fn, ("map", kind))
+            col, bad = u["col"], BAD_VALUE[u["col"]]
+
+            def raising(x):
+                """a mapper that has no label for the bad value and says so (a pure function of its input)"""
+                if (x[col] == bad) if per_row else bool((x[col] == bad).any()):
+                    raise KeyError(f"mapper of {name}: no label for {bad!r}")
+                return fn(x)
+            return cb(raising)
 
         def edges(es):
             """the same edges as list of floats / list of ints / tuple / numpy array (`bin_edges: List[Union[int, float]]`)"""
@@ -505,8 +735,17 @@ def _run(case, _is_prior=False):
         if o["filter"] is not None:
             kw["pop_filter"] = query_string(o["filter"], o.get("ws", 0))
         m, rem = o["mod"], o["rem"]
-        if m > 1:
+        oname = o["name"]
+        def spared():
+            return all_passing_excluded(case, o, out["events"][-1]["rows"])
+        if targeted(("to_observe",), oname):
+            kw["to_observe"] = cb(faulty(vary(lambda e, m=m, rem=rem: m <= 1 or tick(e.time) % m == rem, "bool"), ("to_observe",), oname, spared))
+        elif m > 1:
             kw["to_observe"] = cb(vary(lambda e, m=m, rem=rem: tick(e.time) % m == rem, "bool"), ("obs", m, rem))
+
+        def cbf(fn, kinds, key=None):
+            """a callable of this observation; wrapped (and not shared with other registrations) when a fault aims at it"""
+            return cb(faulty(fn, kinds, oname, spared)) if targeted(kinds, oname) else cb(fn, key)
         fm = formatter(o)
         if fm is not None:
             kw["results_formatter"] = fm
@@ -519,29 +758,32 @@ def _run(case, _is_prior=False):
             if o.get("method") == "unstratified":
                 included = ["event_time"] + rc + rv
                 if not o.get("nocb"):
-                    kw["results_gatherer"] = cb(lambda pop: pop[included])
-                    kw["results_updater"] = cb(lambda old, new: new if old.empty else pd.concat([old, new], ignore_index=True))
+                    kw["results_gatherer"] = cbf(lambda pop: pop[included], ("gatherer",))
+                    kw["results_updater"] = cbf(lambda old, new: new if old.empty else pd.concat([old, new], ignore_index=True), ("updater",))
                 b.results.register_unstratified_observation(**kw)
             else:
                 b.results.register_concatenating_observation(**kw)
             return
         agg = o["agg"]
         rc, rv = set(fc), set(fv)
+        A_ = ("agg",)
         if agg == "count":
-            kw["aggregator"] = cb(vary(lambda df: len(df), "num"), ("agg", agg))
+            kw["aggregator"] = cbf(vary(lambda df: len(df), "num"), A_, ("agg", agg))
+        elif agg == "len" and targeted(A_, oname):
+            kw["aggregator"] = cbf(len, A_)          # the default aggregator, handed over explicitly so that it can fail
         elif agg == "sumy":
-            kw.update(aggregator_sources=["y"], aggregator=cb(vary(lambda df: df["y"].sum(), "num"), ("agg", agg))); rc.add("y")       # noqa: E702
+            kw.update(aggregator_sources=["y"], aggregator=cbf(vary(lambda df: df["y"].sum(), "num"), A_, ("agg", agg))); rc.add("y")       # noqa: E702
         elif agg == "sumx":
-            kw.update(aggregator_sources=["x"], aggregator=cb(vary(lambda df: df["x"].sum(), "num"), ("agg", agg))); rc.add("x")       # noqa: E702
+            kw.update(aggregator_sources=["x"], aggregator=cbf(vary(lambda df: df["x"].sum(), "num"), A_, ("agg", agg))); rc.add("x")       # noqa: E702
         elif agg == "sumpv":
-            kw.update(aggregator_sources=["pv"], aggregator=cb(vary(lambda df: df["pv"].sum(), "num"), ("agg", agg))); rv.add("pv")    # noqa: E702
+            kw.update(aggregator_sources=["pv"], aggregator=cbf(vary(lambda df: df["pv"].sum(), "num"), A_, ("agg", agg))); rv.add("pv")    # noqa: E702
         elif agg == "sumpw":
-            kw.update(aggregator_sources=["pw"], aggregator=cb(vary(lambda df: df["pw"].sum(), "num"), ("agg", agg))); rv.add("pw")    # noqa: E702
+            kw.update(aggregator_sources=["pw"], aggregator=cbf(vary(lambda df: df["pw"].sum(), "num"), A_, ("agg", agg))); rv.add("pw")    # noqa: E702
         elif agg == "sumy_nosrc":
-            kw.update(aggregator=cb(vary(lambda df: df["y"].sum(), "num"), ("agg", agg))); rc.add("y")                                  # noqa: E702
+            kw.update(aggregator=cbf(vary(lambda df: df["y"].sum(), "num"), A_, ("agg", agg))); rc.add("y")                                  # noqa: E702
         elif agg == "multi":
             kw.update(aggregator_sources=["y"],
-                      aggregator=cb(vary(lambda df: pd.Series({"n": float(len(df)), "sy": float(df["y"].sum())}), "num"), ("agg", agg))); rc.add("y")   # noqa: E702
+                      aggregator=cbf(vary(lambda df: pd.Series({"n": float(len(df)), "sy": float(df["y"].sum())}), "num"), A_, ("agg", agg))); rc.add("y")   # noqa: E702
         kw.update(requires_columns=sorted(rc), requires_values=sorted(rv))
         if add or o.get("pass_empty"):
             kw["additional_stratifications"] = list(add)
@@ -556,7 +798,7 @@ def _run(case, _is_prior=False):
                             upd[c] = 0.0
                         upd[c] = upd[c] + new[c]
                     return upd
-                kw["results_updater"] = cb(add_up)
+                kw["results_updater"] = cbf(add_up, ("updater",))
             if fm is None:
                 kw["results_formatter"] = cb(lambda measure, results: results.reset_index())
             b.results.register_stratified_observation(**kw)
@@ -610,26 +852,86 @@ def _run(case, _is_prior=False):
                                        "builder_interface": "vivarium.framework.time.TimeInterface"}}}
     if strat_cfg:
         cfg["stratification"] = strat_cfg
-    SimulationContext._clear_context_cache()
+    if not _is_twin:
+        SimulationContext._clear_context_cache()
+    catch = case.get("catch")
     stage = "construct"
     try:
-        sim = SimulationContext(components=comps, configuration=cfg, plugin_configuration=plug, logging_verbosity=0)
-        holder["sim"] = sim
-        stage = "setup"
-        sim.setup()
-        stage = "init"
-        sim.initialize_simulants()
+        if case.get("interactive"):
+            # the caller of lesson 16: an InteractiveContext user, who can catch what `step()` raises and carry on
+            from vivarium import InteractiveContext
+            sim = InteractiveContext(components=comps, configuration=cfg, plugin_configuration=plug, logging_verbosity=0, setup=False)
+            holder["sim"] = sim
+            stage = "setup"
+            sim.setup()                      # setup + initialize_simulants
+        else:
+            sim = SimulationContext(components=comps, configuration=cfg, plugin_configuration=plug, logging_verbosity=0)
+            holder["sim"] = sim
+            stage = "setup"
+            sim.setup()
+            stage = "init"
+            sim.initialize_simulants()
         stage = "run"
-        for _ in range(case["steps"]):
-            sim.step()
+        yield
+        if not catch:
+            for _ in range(case["steps"]):
+                sim.step()
+                yield
+        else:
+            # the harness plays the calling component: it catches what `step()` raises, reads the results, and calls
+            # `step()` again (the cause is transient: a fault is live for its first `times` emissions only)
+            done = failures = 0
+            while done < case["steps"]:
+                try:
+                    sim.step()
+                    done += 1
+                except Exception as e:  # noqa: BLE001
+                    last = out["events"][-1] if out["events"] else None
+                    cur.update(step=None, phase=None)
+                    if last is not None and last["after"] is None and last.get("raised") is None:
+                        # raised between the probe's listeners of one event, i.e. by the results manager's gathering
+                        last["raised"] = type(e).__name__
+                        last["error"] = f"{type(e).__name__}: {str(e)[:160]}"
+                        try:
+                            res = sim.get_results()          # results read between the failure and the retry
+                            last["after_fail"] = {o["name"]: canon_result(res.get(o["name"]), o, pd, tick)
+                                                  for o in case["obs"] if o["name"] in res}
+                            if case.get("reread"):
+                                for df in res.values():
+                                    try:
+                                        for c in df.columns:
+                                            if c in VALUE_COLS:
+                                                df[c] = -7.0
+                                        df.drop(df.index, inplace=True)
+                                    except Exception:  # noqa: BLE001
+                                        pass
+                        except Exception as e2:  # noqa: BLE001
+                            last["after_fail_error"] = f"{type(e2).__name__}: {str(e2)[:160]}"
+                        failures += 1
+                        if failures > catch.get("max", 2):
+                            out["gave_up"] = True
+                            break
+                    else:
+                        # raised outside an observed event (e.g. the life cycle refuses to run the step again)
+                        out["refused"] = f"{type(e).__name__}: {str(e)[:160]}"
+                        out["refused_class"] = type(e).__name__
+                        break
+                yield
         stage = "results"
         res = sim.get_results()
         out["final"] = {o["name"]: canon_result(res.get(o["name"]), o, pd, tick) for o in case["obs"]}
         out["final_extra"] = sorted(set(res) - {o["name"] for o in case["obs"]})
         stage = "finalize"
-        sim.finalize()
-        res = sim.get_results()
-        out["after_finalize"] = {o["name"]: canon_result(res.get(o["name"]), o, pd, tick) for o in case["obs"]}
+        if catch:
+            try:
+                sim.finalize()
+            except Exception as e:  # noqa: BLE001
+                out["finalize_error"] = f"{type(e).__name__}: {str(e)[:160]}"
+        else:
+            sim.finalize()
+        if out.get("finalize_error") is None:
+            res = sim.get_results()
+            out["after_finalize"] = {o["name"]: canon_result(res.get(o["name"]), o, pd, tick) for o in case["obs"]}
     except Exception as e:  # noqa: BLE001
         out["outcome"] = stage + "-error"
         out["error"] = f"{type(e).__name__}: {str(e)[:200]}"
@@ -904,7 +1206,7 @@ def canon_concat(rows):
 
 class C16(Prop):
     id = "C16"
-    lean_modules = ["VivModel.Props.C16"]
+    lean_modules = ["VivModel.Props.C16", "VivModel.Props.C16Src"]
     build_targets = ["VivModel.Model.Results", "VivModel.Model.Proto"]
     driver = "C16"
     technique = ("Lean 4 proof (induction over rows, strata and events of an executable model of "
@@ -921,7 +1223,11 @@ class C16(Prop):
     rule = ("each case is a whole simulation with a generated observer program (0-4 stratifications of 11 kinds, 4 of them with mapper output in another row order, 1-5 adding / "
             "concatenating observations over the four phases, exclusions from code and configuration, default / additional / "
             "excluded stratifications directly and through Observer configuration, filters, to_observe, 6 aggregators) over a "
-            "random trajectory (births, untracking, value changes, optional unknown category); distinct by case hash; "
+            "random trajectory (births, untracking, value changes, optional unknown category); in 40 % of the valid programs user "
+            "callables of the results system (pipelines, mappers, filter evaluation, to_observe, aggregators, gatherers, updaters) "
+            "raise on purpose at a chosen event, the harness - an InteractiveContext caller - catches the exception, reads the "
+            "results, runs the step again and finishes the run; in 12 % a second simulation is alive in the same process and "
+            "steps through the same clock times; distinct by case hash; "
             "non-trivial = at least one event with an eligible simulant was observed and a non-zero result reported")
 
     # ------------------------------------------------------------------ generation
@@ -929,7 +1235,9 @@ class C16(Prop):
         return boundary_cases()
 
     def generate(self, rng: random.Random, i: int, tier: str):
-        return gen_case(rng, tier)
+        case = gen_case(rng, tier)
+        decorate(case, tier)          # lesson 16; draws nothing from `rng`: the stream of base cases is what it was
+        return case
 
     def shrink(self, case):
         return shrink_case(case)
@@ -946,7 +1254,13 @@ class C16(Prop):
             L.append(f"cfgexcl {name} {_lst(cats)}")
         if case["cfg_default"] is not None:
             L.append(f"default {_lst(case['cfg_default'])}")
-        for kind, i in case["order"]:
+        # registrations in the order in which they REALLY happen (it decides the order of the observation groups):
+        # the Direct component's in case order, then the Observer components'
+        ftok = {}
+        for o in case["obs"]:
+            ftok.setdefault(filter_string(o), f"F{len(ftok)}")
+        via_observer = [["o", i] for i, o in enumerate(case["obs"]) if o.get("via") == "observer"]
+        for kind, i in [x for x in case["order"] if not (x[0] == "o" and case["obs"][x[1]].get("via") == "observer")] + via_observer:
             if kind == "s":
                 s = case["strats"][i]
                 ex = s.get("excl_code")
@@ -958,19 +1272,23 @@ class C16(Prop):
                     if o["src"] != case["obs"][i]["name"] or o["_i"] != i:
                         continue
                     nocb = " nocb" if (o.get("nocb") and o.get("method") in ("stratified", "unstratified")) else ""
+                    ft = ftok[filter_string(o)]
                     if o["type"] == "add":
-                        L.append(f"obs add {o['name']} {o['when']} {_lst(o['add'])} {_lst(o['exc'])}{nocb}")
+                        L.append(f"obs add {o['name']} {o['when']} {_lst(o['add'])} {_lst(o['exc'])} {ft}{nocb}")
                     else:
-                        L.append(f"obs cat {o['name']} {o['when']}{nocb}")
+                        L.append(f"obs cat {o['name']} {o['when']} {ft}{nocb}")
         L.append("setup")
         if obs["outcome"] in ("construct-error", "setup-error", "init-error"):
             return L
+        catch = bool(case.get("catch"))
+        req_pipes = required_pipes(case)
         for o in V:
             L.append(f"names {o['name']}")
         regs = registered_strats(case)
-        for ev in obs["events"]:
+        for n, ev in enumerate(obs["events"]):
             ph = PH[ev["phase"]]
             rows = ev["rows"]
+            live = live_faults(case, obs["events"], n) if catch else []
             bits = _lst([1 if r["in_event"] else 0 for r in rows])
             raws = []
             for r in rows:
@@ -981,7 +1299,11 @@ class C16(Prop):
                     else:
                         toks.append(raw_category(s, r))
                 raws.append(",".join(toks) if toks else "-")
-            line = f"ev {ph} {ev['time']} {bits} {';'.join(raws) if raws else '-'}"
+            line = f"{'evc' if catch else 'ev'} {ph} {ev['time']} {bits} {';'.join(raws) if raws else '-'}"
+            if catch:
+                ef = (["prepare"] if any(f["kind"] == "pipe" and f["target"] in req_pipes for f in live) else []) + \
+                     (["mapper"] if mapper_raises_at(case, ev) else [])
+                line += " " + (",".join(ef) if ef else "-")
             for o in V:
                 if o["when"] != ph:
                     continue
@@ -991,12 +1313,15 @@ class C16(Prop):
                     data = _lst([row_value(o["agg"], r) for r in rows])
                 else:
                     data = ";".join(",".join(str(v) for v in concat_payload(o, r)) for r in rows) if rows else "-"
-                line += f" {o['name']}:{t}:{pb}:{data}"
+                line += f" {o['name']}:{t}:{pb}:{data}" + (":" + obs_fault_code(case, o, live, rows) if catch else "")
             L.append(line)
             if ev["after"] is not None:
                 for o in V:
                     if o["when"] == ph:
                         L.append(f"get {o['name']}")
+            elif ev.get("after_fail") is not None:
+                for o in V:                                  # results read between the failure and the retry: ALL of them
+                    L.append(f"get {o['name']}")
         if obs["final"] is not None:
             for o in V:
                 L.append(f"get {o['name']}")
@@ -1047,7 +1372,7 @@ class C16(Prop):
         stopped_impl = obs["outcome"] == "run-error"
         for n, ev in enumerate(obs["events"]):
             r = next(it)
-            raised_here = stopped_impl and n == len(obs["events"]) - 1 and ev["after"] is None
+            raised_here = (stopped_impl and n == len(obs["events"]) - 1 and ev["after"] is None) or ev.get("raised") is not None
             if r == "bad-op":
                 return dis + [f"driver: bad-op at event {n}"]
             if (r != "ok") != raised_here:
@@ -1058,6 +1383,12 @@ class C16(Prop):
                 for o in V:
                     if o["when"] == PH[ev["phase"]]:
                         dis += same(o, ev["after"].get(o["src"]), next(it), f"after event {n} (step {ev['step']} {PH[ev['phase']]})")
+                if dis:
+                    return dis
+            elif ev.get("after_fail") is not None:
+                for o in V:
+                    dis += same(o, ev["after_fail"].get(o["src"]), next(it),
+                                f"after the FAILED gathering of event {n} (step {ev['step']} {PH[ev['phase']]}, {ev.get('raised')})")
                 if dis:
                     return dis
         if stopped_impl and not (obs["events"] and obs["events"][-1]["after"] is None):
@@ -1119,6 +1450,13 @@ def _short(t):
 
 def oracle(case, obs):
     """The property evaluated on the implementation's behaviour, from the snapshots only (no Lean model)."""
+    fails = _oracle(case, obs)
+    if not any(f["sig"].startswith("twin:") for f in fails):
+        fails = fails + twin_fails(case, obs)
+    return fails
+
+
+def _oracle(case, obs):
     fails = []
 
     def fail(sig, msg):
@@ -1174,11 +1512,13 @@ def oracle(case, obs):
         return tab
 
     stopped = obs["outcome"] == "run-error"
+    catch = bool(case.get("catch"))
     for n, ev in enumerate(obs["events"]):
         ph = PH[ev["phase"]]
-        where = f"event {n} (step {ev['step']} {ph})"
+        where = f"event {n} (step {ev['step']} {ph}" + (f", emission {emission_no(obs['events'], n) + 1}" if catch else "") + ")"
         rows = ev["rows"]
         inev = [r for r in rows if r["in_event"]]
+        live = live_faults(case, obs["events"], n) if catch else []
         if not isinstance(ev["time"], int):
             fail("harness-inexact", f"{where}: event time {ev['time']} is not a whole number of days")
             return fails
@@ -1198,11 +1538,60 @@ def oracle(case, obs):
         narrow = [(o["name"], n_, r["sid"]) for o in adding if o["when"] == ph and to_observe(o, ev["time"])
                   for n_ in names[o["name"]] for r in inev
                   if passes(o["filter"], r) and raw_category(strat_by_name(case, n_), r) not in allcats[n_]]
-        raised_here = stopped and n == len(obs["events"]) - 1 and ev["after"] is None
+        raised_here = (stopped and n == len(obs["events"]) - 1 and ev["after"] is None) or ev.get("raised") is not None
         if raised_here:
-            if not wide:
-                fail("simulation-raised", f"{where}: {obs['error']}")
-            return fails
+            if not wide and not live and not mapper_raises_at(case, ev):
+                fail("simulation-raised", f"{where}: {ev.get('error') or obs['error']}")
+                return fails
+            if not catch:
+                return fails
+            # The caller caught the exception.  Property: every event that was actually gathered contributes exactly once.
+            # A failed gathering may have reached some observations of its phase and not others (nothing in the property
+            # says which): each of them shows, in the results read right after the failure, either no change at all or
+            # exactly this event's increment - never a part of it, never anything for another phase.
+            af = ev.get("after_fail")
+            if af is None:
+                fail("results-unreadable-after-failed-gathering", f"{where}: {ev.get('after_fail_error')}")
+                return fails
+            for o in V:
+                observing = o["when"] == ph and to_observe(o, ev["time"])
+                if o["type"] == "cat":
+                    got = canon_concat(impl_concat(af.get(o["name"]), o))
+                    new = [[ev["time"]] + concat_payload(o, r) for r in inev if passes(o["filter"], r)] if observing else []
+                    if got == canon_concat(cexp[o["name"]]):
+                        pass
+                    elif got == canon_concat(cexp[o["name"]] + new):
+                        cexp[o["name"]] += new
+                    else:
+                        fail("failed-gathering-increment", f"{where} {o['name']}: rows after the failed gathering {str(got)[:300]}: neither "
+                                                           f"the rows before nor those plus this event's eligible rows {str(new)[:200]}")
+                        return fails
+                    continue
+                nm = names[o["name"]]
+                elig = [r for r in inev if passes(o["filter"], r)
+                        and all(raw_category(strat_by_name(case, n_), r) in kept[n_] for n_ in nm)]
+                inc = {k: 0 for k in full[o["name"]]}
+                if observing:
+                    for r in elig:
+                        k = tuple(raw_category(strat_by_name(case, n_), r) for n_ in nm) if nm else ("all",)
+                        inc[k] += row_value(o["agg"], r)
+                tab = check_shape(o, af.get(o["src"]), where + " (read after the failure)")
+                if tab is None or set(tab) != set(full[o["name"]]):
+                    return fails
+                got_inc = {k: tab[k] - before[o["name"]][k] for k in tab}
+                before[o["name"]] = tab
+                if not any(got_inc.values()):
+                    continue
+                if got_inc == inc:
+                    for k, v in inc.items():
+                        running[o["name"]][k] += v
+                    for r in (elig if observing else []):
+                        ever[o["name"]].add(tuple(raw_category(strat_by_name(case, n_), r) for n_ in nm) if nm else ("all",))
+                else:
+                    fail("failed-gathering-increment", f"{where} {o['name']} ({o['when']}): the gathering raised {ev.get('raised')}; change read after "
+                                                       f"the failure {_nz(got_inc)}: neither nothing nor this event's increment {_nz(inc)}")
+                    return fails
+            continue
         if narrow:
             fail("unknown-category-not-stopped", f"{where}: mapper of {narrow[0][1]} produced an unknown category for simulant "
                                                  f"{narrow[0][2]} (eligible for {narrow[0][0]}) and the simulation went on")
@@ -1250,6 +1639,12 @@ def oracle(case, obs):
     if stopped:
         fail("simulation-raised", f"outside an observed event: {obs['error']}")
         return fails
+    # a step / finalize refused by the life cycle: legitimate only after a gathering failed in a phase before
+    # collect_metrics (the main loop cannot be re-entered from there - C06's business, a refusal, not a wrong result)
+    early_failure = any(ev.get("raised") is not None and ev["phase"] < 3 for ev in obs["events"])
+    for key in ("refused", "finalize_error"):
+        if obs.get(key) and not early_failure:
+            fail("simulation-raised", f"outside an observed event ({key}): {obs[key]}")
     if obs["final"] is None:
         fail("no-results", "get_results() was not reached")
         return fails
@@ -1277,6 +1672,15 @@ def oracle(case, obs):
             if nzu:
                 fail("nonzero-where-nothing-observed", f"{label} {o['name']}: {nzu}")
     return fails
+
+
+def twin_fails(case, obs):
+    """the second simulation of the process (its step attempts interleaved with this one's) must satisfy the property on
+    its own: nothing - not even a failed gathering - is shared between two simulations"""
+    if not case.get("twin") or not isinstance(obs.get("twin"), dict):
+        return []
+    return [{"sig": "twin:" + f["sig"], "msg": "second simulation in the same process: " + f["msg"]}
+            for f in oracle(case["twin"], obs["twin"])[:2]]
 
 
 def _nz(t):
@@ -1352,6 +1756,42 @@ def tags(case, obs):
         t.append("results-read-after-finalize")
     if case.get("unknown"):
         t.append("unknown-injected:" + case["unknown"]["col"])
+        if case["unknown"].get("transient"):
+            t.append("unknown-transient(gone-when-the-step-is-run-again)")
+        if case["unknown"].get("raises"):
+            t.append("mapper-raises-on-unknown-value")
+    for f in case_faults(case):
+        t.append("fault:" + f["kind"])
+        t.append(f"fault-phase:{PH[f['phase']]}")
+        t.append("fault-at:" + ("first-step" if f["step"] == 0 else "last-step" if f["step"] == case["steps"] - 1 else "middle-step"))
+        if f.get("times", 1) > 1:
+            t.append("fault-live-for-2+-emissions")
+    if case.get("catch"):
+        t.append("caller-catches")
+    if case.get("interactive"):
+        t.append("InteractiveContext")
+    if case.get("twin"):
+        t.append("twin-simulation-interleaved" + ("(with-failures)" if any(e.get("raised") for e in (obs.get("twin") or {}).get("events", [])) else ""))
+    last_seen = {}
+    for n, ev in enumerate(obs["events"]):
+        if ev.get("raised"):
+            t.append("caught:" + str(ev["raised"]))
+            t.append("failed-gathering:" + PH[ev["phase"]])
+            af = ev.get("after_fail") or {}
+            if any((last_seen[k] != v) if k in last_seen else _not_initial(v) for k, v in af.items()):
+                t.append("failed-gathering-kept-what-was-gathered-before-the-failure")
+            if not live_faults(case, obs["events"], n):
+                t.append("caught-unknown-category-from-data")
+            if n + 1 < len(obs["events"]):
+                t.append("step-run-again-after-failure")
+        for k, v in list((ev.get("after") or {}).items()) + list((ev.get("after_fail") or {}).items()):
+            last_seen[k] = v
+        if emission_no(obs["events"], n) > 0 and ev["after"] is not None:
+            t.append("phase-emitted-again-for-the-same-clock-time")
+    if obs.get("refused"):
+        t.append("retry-refused-by-life-cycle:" + str(obs.get("refused_class")))
+    if obs.get("gave_up"):
+        t.append("caller-gave-up-after-repeated-failures")
     sizes = set()
     births = untracked = notinev = edge = False
     for ev in obs["events"]:
@@ -1376,6 +1816,16 @@ def tags(case, obs):
                 t.append("has-zero-stratum" if z else "all-strata-nonzero")
                 t.append(f"rows:{'1' if len(res['rows']) == 1 else '2-6' if len(res['rows']) <= 6 else '7+'}")
     return t
+
+
+def _not_initial(res):
+    """has a canonical result left its initial state (all zeros / no rows)?"""
+    if not res:
+        return False
+    cols = res["cols"]
+    if "event_time" in cols or not any(c in VALUE_COLS for c in cols):
+        return bool(res["rows"])
+    return any(r[j] != [0, 1] for r in res["rows"] for j, c in enumerate(cols) if c in VALUE_COLS)
 
 
 def shared_frame_hazard(case):
@@ -1649,11 +2099,102 @@ def crowd_phase(rng, case_strats, cfg_excl, obs, snames, defaults, big):
         obs.insert(0, obs.pop(i))
 
 
+def add_faults(case, frng):
+    """Dedicated mode (lessons 9, 16): user callables of the results system that raise on purpose at a chosen event (first /
+    middle / last step, any of the four phases, collect_metrics most often because only there the step can be run again),
+    the caller catching the exception and carrying on.  Observations are herded into the phase so that the failing
+    callable has other observation groups before and after it."""
+    steps = case["steps"]
+    faults = []
+    for _ in range(frng.choice([1, 1, 1, 2])):
+        phase = 3 if frng.random() < 0.65 else frng.randrange(3)
+        step = frng.choice([0, steps - 1, frng.randrange(steps)])
+        if faults and frng.random() < 0.5:
+            phase, step = faults[0]["phase"], faults[0]["step"]        # two failing callables in ONE event
+        for o in case["obs"]:
+            if o["when"] != PH[phase] and frng.random() < 0.5:
+                o["when"] = PH[phase]
+                o.pop("default_when", None)
+        here = [o for o in case["obs"] if o["when"] == PH[phase]]
+        classes = []
+        if here:
+            classes += ["obs", "obs", "obs", "filter"]
+        by_col = {col: [s for s in registered_strats(case) if s["kind"] in RAISING_KINDS[col] + {"g": ("g",), "h": (), "x": ("xb",)}[col]]
+                  for col in ("g", "h", "x")}
+        if any(by_col.values()) and not case.get("unknown") and not any(f.get("mapper") for f in faults):
+            classes.append("mapper")
+        classes.append("pipe")
+        cls = frng.choice(classes)
+        f = {"step": step, "phase": phase, "times": frng.choice([1, 1, 1, 2]), "exc": frng.choice([None, None, "key", "value", "zero", "type"])}
+        if cls == "obs":
+            o = frng.choice(here)
+            kinds = ["to_observe"] + (["agg", "agg"] if o["type"] == "add" else [])
+            if o.get("method") in ("stratified", "unstratified") and not o.get("nocb"):
+                kinds += ["updater", "updater"] + (["gatherer"] if o["type"] == "cat" else [])
+            f.update(kind=frng.choice(kinds), target=o["name"])
+            if f["kind"] == "to_observe" and frng.random() < 0.5:
+                o["mod"], o["rem"] = 1, 0
+        elif cls == "filter":
+            o = frng.choice(here)
+            base = [["tracked", "==", True]] if o["filter"] is None else [list(a) for a in o["filter"]]
+            if not has_pf_atom(o):
+                o["filter"] = base + [["pf", "<", 2.0]]
+            f.update(kind="filter", target=None)
+        elif cls == "mapper":
+            # a mapper fails through the data: a value it has no category for (or, `raises`, no label at all: KeyError)
+            # appears at the chosen event and is gone when the step is run again
+            col = frng.choice([c for c in ("g", "h", "x") if by_col[c]])
+            case["unknown"] = {"step": step, "phase": phase, "col": col, "who": frng.randrange(100), "transient": frng.random() < 0.8,
+                               "raises": frng.random() < 0.5}
+            continue
+        else:
+            req = sorted(required_pipes(case))
+            if not req:
+                o = frng.choice(case["obs"]) if case["obs"] else None
+                if o is not None and not has_pf_atom(o):
+                    o["filter"] = ([["tracked", "==", True]] if o["filter"] is None else [list(a) for a in o["filter"]]) + [["pf", "<", 2.0]]
+                req = ["pf"]
+            f.update(kind="pipe", target=frng.choice(req))
+        faults.append(f)
+    if faults:
+        case["faults"] = faults
+    case["catch"] = {"max": frng.choice([1, 2, 2, 3])}
+    if frng.random() < 0.7:
+        case["interactive"] = True
+
+
+def decorate(case, tier):
+    """fault / re-entrancy decorations of a generated case, from a random stream of their own (seeded by the case)"""
+    if invalid_reason(case) is not None:
+        return
+    frng = random.Random(case["tseed"] * 1000003 + case["pop"] * 101 + len(case["obs"]) * 7 + case["steps"])
+    r = frng.random()
+    if r < 0.4 and case["obs"]:
+        add_faults(case, frng)
+    elif case.get("unknown") and r < 0.75:
+        case["catch"] = {"max": frng.choice([1, 2])}          # an unknown category that does NOT go away: every retry fails again
+        if frng.random() < 0.6:
+            case["interactive"] = True
+    if frng.random() < 0.12:
+        # a second simulation alive in the same process, stepping through the same clock times, with (often) failures of its own
+        t = gen_prior(random.Random(frng.randrange(10 ** 9)), tier)
+        t["steps"] = case["steps"]
+        for k in ("clock", "slow"):
+            t.pop(k, None)
+            if k in case:
+                t[k] = case[k]
+        if frng.random() < 0.7 and t["obs"] and invalid_reason(t) is None:
+            add_faults(t, frng)
+        case["twin"] = t
+        if frng.random() < 0.5:
+            case["twin_first"] = True
+
+
 def mk(pop, steps, strats, obs, **kw):
     case = {"pop": pop, "steps": steps, "tseed": kw.pop("tseed", 1), "traj": dict(TRAJ0, **kw.pop("traj", {})), "unknown": kw.pop("unknown", None),
             "strats": strats, "cfg_default": kw.pop("cfg_default", None), "cfg_excl": kw.pop("cfg_excl", {}), "obs": obs}
     case["order"] = kw.pop("order", [["s", i] for i in range(len(strats))] + [["o", i] for i in range(len(obs))])
-    for k in ("clock", "slow", "callobj", "prior", "share", "hetero", "reread"):
+    for k in ("clock", "slow", "callobj", "prior", "share", "hetero", "reread", "faults", "catch", "interactive", "twin", "twin_first"):
         if k in kw:
             case[k] = kw.pop(k)
     assert not kw
@@ -1826,6 +2367,87 @@ def boundary_cases():
     # registration order: observations before stratifications, columns in a different order than the sorted names
     out.append(mk(5, 2, [S("xb"), S("g"), S("h2")], [A("n", add=["h2", "xb", "g"], agg="sumx")],
                   order=[["o", 0], ["s", 2], ["s", 0], ["s", 1]], traj={"p_change": 0.5}))
+    out += fault_cases()
+    return out
+
+
+def fault_cases():
+    """Lesson 16: user callables of every kind the results system calls raise on purpose at a chosen event; the caller (an
+    InteractiveContext user around `step()`) catches the exception, reads the results, calls `step()` again, finishes
+    the run.  A failure in collect_metrics lets the step be run again (all four phases are emitted again for the same
+    clock time); a failure in an earlier phase makes the life cycle refuse every further step (a refusal, C06)."""
+    out = []
+    pf = ["pf", "<", 2.0]
+
+    def program(ph, other):
+        strats = [S("gy", ["a1"]), S("h2")]
+        obs = [A("first", when=ph, add=["gy"]),
+               A("filt", when=ph, flt=[["tracked", "==", True], pf], agg="sumy"),
+               A("second", when=ph, add=["gy"], agg="sumx"),                       # the group of `first`
+               A("strat", when=ph, add=["h2"], method="stratified", agg="count", mod=2, rem=0),
+               Cc("rows", when=ph, cols=["y"]),
+               Cc("unstrat", when=ph, cols=["x"], method="unstratified", flt=[]),
+               A("late", when=ph, add=["gy", "h2"], flt=[], agg="multi"),
+               A("other", when=other, add=["h2"]), Cc("other_rows", when=other, flt=[])]
+        return strats, obs
+    TR = {"p_change": 0.3, "p_untrack": 0.05, "p_retrack": 0.4, "p_birth": 0.3, "max_births": 1}
+    kinds = [("agg", "second"), ("to_observe", "strat"), ("updater", "strat"), ("gatherer", "unstrat"), ("updater", "unstrat"),
+             ("filter", None), ("unknown", "g+raises"), ("unknown", "h"), ("pipe", "pf"), ("to_observe", "rows"), ("agg", "late"),
+             ("agg", "first")]
+    # collect_metrics: the step can be run again; first / middle / last step
+    for i, (kind, tgt) in enumerate(kinds):
+        step = (0, 1, 2)[i % 3]
+        st, ob = program("collect_metrics", "time_step")
+        if kind == "unknown":
+            # a mapper fails through the data (gy raises a KeyError for g == "zz", h2 returns the unknown category "W"); the
+            # value is gone when the step is run again
+            out.append(mk(5, 3, st, ob, traj=TR, tseed=60 + i, interactive=True, catch={"max": 2}, reread=i % 2 == 0,
+                          unknown={"step": step, "phase": 3, "col": tgt[0], "who": 1, "transient": True, "raises": tgt.endswith("raises")}))
+            continue
+        out.append(mk(5, 3, st, ob, traj=TR, tseed=60 + i, interactive=i % 4 != 3, catch={"max": 2}, reread=i % 2 == 0,
+                      faults=[{"kind": kind, "target": tgt, "step": step, "phase": 3, "times": 1, "exc": [None, "key", "zero", "value"][i % 4]}]))
+    # the three earlier phases: observed there, failing there - the retry is refused, the results stay readable
+    for k, (kind, tgt) in zip((0, 1, 2, 0, 1, 2), [("agg", "second"), ("filter", None), ("unknown", "g"), ("pipe", "pf"), ("updater", "strat"), ("to_observe", "rows")]):
+        st, ob = program(PH[k], "collect_metrics")
+        if kind == "unknown":
+            out.append(mk(4, 3, st, ob, traj=TR, tseed=80 + k, interactive=True, catch={"max": 2},
+                          unknown={"step": 1, "phase": k, "col": "g", "who": 0, "transient": True, "raises": True}))
+            continue
+        out.append(mk(4, 3, st, ob, traj=TR, tseed=80 + k, interactive=True, catch={"max": 2},
+                      faults=[{"kind": kind, "target": tgt, "step": 1, "phase": k, "times": 1}]))
+    # the retry fails as well, the one after it succeeds; the caller gives up after the second failure; never goes away
+    st, ob = program("collect_metrics", "time_step__cleanup")
+    out.append(mk(5, 3, st, ob, traj=TR, tseed=90, interactive=True, catch={"max": 3}, faults=[{"kind": "agg", "target": "late", "step": 1, "phase": 3, "times": 2}]))
+    out.append(mk(5, 3, st, ob, traj=TR, tseed=91, interactive=True, catch={"max": 1}, faults=[{"kind": "filter", "target": None, "step": 2, "phase": 3, "times": 2}]))
+    out.append(mk(5, 2, st, ob, traj=TR, tseed=92, catch={"max": 2}, unknown={"step": 0, "phase": 3, "col": "h", "who": 2, "raises": True}))
+    # two failing callables in one event (the one reached first decides), failures in two different steps
+    out.append(mk(5, 3, st, ob, traj=TR, tseed=93, interactive=True, catch={"max": 3},
+                  faults=[{"kind": "agg", "target": "late", "step": 1, "phase": 3, "times": 1}, {"kind": "filter", "target": None, "step": 1, "phase": 3, "times": 2}]))
+    out.append(mk(5, 4, st, ob, traj=TR, tseed=94, interactive=True, catch={"max": 3},
+                  faults=[{"kind": "to_observe", "target": "first", "step": 0, "phase": 3, "times": 1}, {"kind": "updater", "target": "unstrat", "step": 3, "phase": 3, "times": 1}]))
+    # a fault that is live but never called: nobody in the event (only a required pipeline is evaluated for an empty
+    # event), to_observe says no, filtered population empty
+    out.append(mk(0, 2, st, ob, tseed=95, interactive=True, catch={"max": 2}, faults=[{"kind": "agg", "target": "first", "step": 0, "phase": 3, "times": 1}]))
+    out.append(mk(0, 2, st, ob, tseed=96, interactive=True, catch={"max": 2}, faults=[{"kind": "pipe", "target": "pf", "step": 1, "phase": 3, "times": 1}]))
+    out.append(mk(4, 3, st, ob, traj=TR, tseed=97, interactive=True, catch={"max": 2}, faults=[{"kind": "updater", "target": "strat", "step": 1, "phase": 3, "times": 1}]))
+    out.append(mk(3, 2, st, ob, traj={"p_untrack": 1.0}, tseed=98, interactive=True, catch={"max": 2},
+                  faults=[{"kind": "agg", "target": "second", "step": 1, "phase": 3, "times": 1}, {"kind": "to_observe", "target": "unstrat", "step": 1, "phase": 3, "times": 1}]))
+    # an unknown category in the DATA (it does not go away): caught, every retry fails again, the time_step phases are
+    # emitted - and counted - once per attempt
+    out.append(mk(4, 3, [S("g"), S("h2")], [A("n", add=["g"]), A("ts", when="time_step", add=["h2"]), Cc("rows", when="time_step__prepare")],
+                  unknown={"step": 1, "phase": 3, "col": "g", "who": 1}, catch={"max": 2}, interactive=True, tseed=99))
+    # two simulations alive in one process, stepping through the same clock times: the gathering fails in one of them
+    # (then in the other, then in both); neither may notice the other
+    twin_prog = lambda ph: mk(3, 3, [S("g"), S("hrev")], [A("n", when=ph, add=["g"]), A("m", when=ph, add=["hrev"], agg="sumy", flt=[]),     # noqa: E731
+                                                          A("ts", when="time_step"), Cc("rows", when=ph)], traj={"p_change": 0.3}, tseed=71)
+    st, ob = program("collect_metrics", "time_step")
+    f_main = [{"kind": "agg", "target": "second", "step": 1, "phase": 3, "times": 1}]
+    f_twin = [{"kind": "agg", "target": "m", "step": 1, "phase": 3, "times": 1}]
+    out.append(mk(4, 3, st, ob, traj=TR, tseed=72, interactive=True, catch={"max": 2}, faults=f_main, twin=twin_prog("collect_metrics")))
+    out.append(mk(4, 3, st, ob, traj=TR, tseed=73, interactive=True, twin=dict(twin_prog("collect_metrics"), faults=f_twin, catch={"max": 2}, interactive=True),
+                  twin_first=True))
+    out.append(mk(4, 3, st, ob, traj=TR, tseed=74, catch={"max": 2}, unknown={"step": 0, "phase": 3, "col": "g", "who": 3, "transient": True},
+                  twin=dict(twin_prog("time_step"), faults=[dict(f_twin[0], phase=1, step=2)], catch={"max": 2})))
     return out
 
 
@@ -1885,7 +2507,27 @@ def shrink_case(case):
         c = copy.deepcopy(case)
         c["prior"] = c["prior"][:-1]
         yield c
-    for k in ("callobj", "slow", "clock", "share", "hetero", "reread"):
+    for i in range(len(case.get("faults") or [])):
+        c = copy.deepcopy(case)
+        del c["faults"][i]
+        yield c
+        if case["faults"][i].get("times", 1) > 1 or case["faults"][i].get("exc"):
+            c = copy.deepcopy(case)
+            c["faults"][i]["times"] = 1
+            c["faults"][i].pop("exc", None)
+            yield c
+    if case.get("twin"):
+        c = copy.deepcopy(case)
+        del c["twin"]
+        c.pop("twin_first", None)
+        yield c
+        for t in itertools.islice(shrink_case(case["twin"]), 30):
+            yield dict(copy.deepcopy(case), twin=t)
+    if case.get("catch") and not case.get("faults"):
+        c = copy.deepcopy(case)
+        del c["catch"]
+        yield c
+    for k in ("callobj", "slow", "clock", "share", "hetero", "reread", "interactive", "twin_first"):
         if case.get(k) and not (k == "clock" and case.get("slow")):
             c = copy.deepcopy(case)
             del c[k]
